@@ -111,6 +111,7 @@ type DocOptions struct {
 	// AlwaysFilter: every stream uses at least one filter of the pool
 	AlwaysFilter bool
 	CycleBodies  bool // the k-th stream gets Bodies[k mod len(Bodies)] instead of a random element
+	BigSize      int  // > 0: bodies of kind BodyBig have exactly this many bytes
 	Info         bool // fill in the Info dictionary
 }
 
@@ -300,7 +301,7 @@ func NewDocPlan(seed int64, opt DocOptions) (*DocPlan, error) {
 	n := opt.Objects
 	// object numbers are allocated in order 1..n+1 (object 1 is the page tree root)
 	refOf := func(i int) pdf.Reference { return pdf.NewReference(uint32(i+1), 0) }
-	g := &valGen{rng: rng, refs: func() pdf.Object { return refOf(rng.Intn(n + 1)) }}
+	g := &valGen{rng: rng, refs: func() pdf.Object { return refOf(rng.Intn(n + 1)) }, bigSize: opt.BigSize}
 	p.objs = append(p.objs, planObj{kind: "dict", filterIdx: -1, val: pdf.Dict{"Type": pdf.Name("Pages"), "Kids": pdf.Array{}, "Count": pdf.Integer(0)}})
 	kinds := []string{"dict", "dict", "array", "int", "real", "name", "string", "bool", "null", "ref", "stream", "stream", "stream"}
 	afterMarker := false
@@ -652,6 +653,8 @@ func clip(b []byte) []byte {
 type valGen struct {
 	rng  *rand.Rand
 	refs func() pdf.Object
+	// bigSize > 0: bodies of kind BodyBig have exactly this many bytes
+	bigSize int
 }
 
 func (g *valGen) name() pdf.Name {
@@ -791,6 +794,11 @@ func (g *valGen) body(k BodyKind, max int) []byte {
 	case BodyBigCR:
 		b = append(text(1100+g.rng.Intn(600)), '\r')
 	case BodyBig:
+		if g.bigSize > 0 {
+			b = text(g.bigSize)
+			b[len(b)-1] = 'Q'
+			break
+		}
 		b = text(1100 + g.rng.Intn(600))
 		if g.rng.Intn(2) == 0 {
 			b = append(b, '\n')
